@@ -6,8 +6,8 @@ CONSTANTS
   Caps = {1, 2, 3, 99}
   StoreChoices <- TwoLogs
   LogsChoices <- LogsAll
-  MaxMut = 0
-  MutKinds = {}
+  MaxMut = 1
+  MutKinds = {"prune", "delete"}
   Faults = TRUE
   Defect_SendBlocksRecv = TRUE
   Fix_DoneOnce = TRUE
